@@ -1,4 +1,4 @@
-package f64
+package f32
 
 import (
 	"testing"
